@@ -396,7 +396,7 @@ Section Main.
     (forall h, In h (handles_of q (ask fixed S F q)) -> alive h = true).
   Proof.
     intro Hh. pose proof ok_nodup as Hnd.
-    destruct q as [r | n | n | t | t f | t | t | o t | | n | t incl | t | t | t incl | t | ].
+    destruct q as [r | n | n | t | t f | t | t | o t | | n | t incl | t | t | t incl | t | | dn].
     - (* QRoot *)
       destruct ok_parts as [_ [_ [Rq [Rm [Rs _]]]]].
       destruct r; simpl.
@@ -513,11 +513,11 @@ Section Main.
         { intros n Hn. pose proof (union_members_visible t ms r L R n Hn) as Vn.
           destruct (vis_inv n Vn) as [y [Ly _]]. eauto. }
         rewrite (ptrs_within_erase ms C). split; [reflexivity | apply ptrs_within_visible; exact C].
-    - (* QIntroEnumValues *)
+    - (* QEnumValues *)
       assert (V : alive t = true) by (apply Hh; left; reflexivity).
       destruct (vis_inv t V) as [x [L [R [T LE]]]].
       simpl. rewrite L, LE. destruct x; simpl; split; try reflexivity; intros h [].
-    - (* QIntroInputFields *)
+    - (* QInputFields *)
       assert (V : alive t = true) by (apply Hh; left; reflexivity).
       destruct (vis_inv t V) as [x [L [R [T LE]]]].
       simpl. rewrite L, LE. destruct x as [| | fs r | | |]; simpl; try solve [split; [reflexivity | intros h []]].
@@ -526,10 +526,20 @@ Section Main.
       rewrite forallb_forall in T'. specialize (T' a HIa). apply andb_true_iff in T' as [Hk Hr].
       destruct (ref_kind_ok_lookup _ _ _ Hk) as [y Ly]. eapply visible_intro; eauto.
       unfold req_of in Hr. rewrite Ly in Hr. simpl in R. eapply subset_trans; eauto.
-    - (* QIntroDirectives *)
+    - (* QDirectives *)
       simpl. split; [reflexivity|]. intros h Hin.
       apply in_flat_map in Hin as [d [Hd Hin]]. apply in_map_iff in Hin as [a [Ha HIa]]. subst h.
       destruct ok_parts as [_ [_ [_ [_ [_ [D _]]]]]]. rewrite forallb_forall in D. specialize (D d Hd).
+      unfold directive_ok in D. apply andb_true_iff in D as [_ D]. rewrite forallb_forall in D.
+      specialize (D a HIa). apply andb_true_iff in D as [Hk Hr]. cbn [fx_dirs fixed] in Hr.
+      destruct (ref_kind_ok_lookup _ _ _ Hk) as [y Ly]. eapply visible_intro; eauto.
+      unfold req_of in Hr. rewrite Ly in Hr. apply is_nil_true in Hr. rewrite Hr. apply subset_nil.
+    - (* QDirective *)
+      simpl. split; [reflexivity|]. intros h Hin.
+      destruct (assoc dn (directives S)) as [args|] eqn:A; [|destruct Hin].
+      simpl in Hin. rewrite app_nil_r in Hin. apply in_map_iff in Hin as [a [Ha HIa]]. subst h.
+      destruct ok_parts as [_ [_ [_ [_ [_ [D _]]]]]]. rewrite forallb_forall in D.
+      specialize (D (dn, args) (assoc_In _ _ _ A)).
       unfold directive_ok in D. apply andb_true_iff in D as [_ D]. rewrite forallb_forall in D.
       specialize (D a HIa). apply andb_true_iff in D as [Hk Hr]. cbn [fx_dirs fixed] in Hr.
       destruct (ref_kind_ok_lookup _ _ _ Hk) as [y Ly]. eapply visible_intro; eauto.
@@ -617,6 +627,30 @@ Theorem view_erase_eq S F G q :
   (forall h, In h (handle_args q) -> visible S F h = true) ->
   ask fixed S F q = ask fixed (erase S F) G q.
 Proof. intros Hok HFG Hh. apply (ask_erase S F G Hok HFG q Hh). Qed.
+
+Theorem view_validator_erase_eq S F G :
+  schema_ok S = true -> subset F G = true ->
+  view_equiv S F (view_validator fixed S F) (view_validator fixed (erase S F) G).
+Proof.
+  intros Hok HFG q Hh. unfold view_validator. destruct (in_view_validator q); [|reflexivity].
+  f_equal. apply view_erase_eq; auto.
+Qed.
+
+Theorem view_executor_erase_eq S F G :
+  schema_ok S = true -> subset F G = true ->
+  view_equiv S F (view_executor fixed S F) (view_executor fixed (erase S F) G).
+Proof.
+  intros Hok HFG q Hh. unfold view_executor. destruct (in_view_executor q); [|reflexivity].
+  f_equal. apply view_erase_eq; auto.
+Qed.
+
+Theorem view_introspection_erase_eq S F G :
+  schema_ok S = true -> subset F G = true ->
+  view_equiv S F (view_introspection fixed S F) (view_introspection fixed (erase S F) G).
+Proof.
+  intros Hok HFG q Hh. unfold view_introspection. destruct (in_view_introspection q); [|reflexivity].
+  f_equal. apply view_erase_eq; auto.
+Qed.
 
 Theorem view_closed S F q :
   schema_ok S = true ->
@@ -981,7 +1015,7 @@ Proof. vm_compute. repeat split; try reflexivity; intro H; discriminate H. Qed.
 
 Lemma dirs_refuted_before_fix :
   schema_ok_gen pinned_dirs W_dir = true /\
-  In (nm "E") (handles_of QIntroDirectives (ask pinned_dirs W_dir [] QIntroDirectives)) /\
+  In (nm "E") (handles_of QDirectives (ask pinned_dirs W_dir [] QDirectives)) /\
   visible W_dir [] (nm "E") = false /\
   schema_ok W_dir = false.
 Proof. vm_compute. repeat split; try reflexivity. left; reflexivity. Qed.
